@@ -642,7 +642,11 @@ def _rename_map(w, ev, ref, ax):
             taken.add(new)
             m[ids[i]] = new
     if ev.get('extra'):
-        m[w.absent_id()] = 'ghost'                 # key not in the table
+        # a key that is not in the table (ignored): its target is a name of
+        # its own, or the very name another, real, id is renamed to
+        tgts = [v for k, v in m.items()]
+        m[w.absent_id()] = tgts[salt % len(tgts)] \
+            if tgts and salt % 2 else 'ghost'
     return m
 
 
